@@ -62,7 +62,7 @@ pub(crate) fn u8_mk_err(kc: u8) -> Box<VmError> {
     };
     Box::new(VmError {
         kind,
-        location: VmErrorLocation { filename: String::new(), lineno: 0, function_name: String::new() },
+        location: VmErrorLocation { filename: "", lineno: 0, function_name: "" },
         trace: vec![],
     })
 }
@@ -259,9 +259,9 @@ mod u8s {
     fn main_of(rt: &Runtime) -> Option<&VmGreenThread> {
         let mut found: Option<&VmGreenThread> = None;
         let mut i = 0;
-        while i < rt.run_queue.0.len() {
-            if rt.run_queue.0[i].is_main {
-                found = Some(&rt.run_queue.0[i]);
+        while i < rt.run_queue.len() {
+            if rt.run_queue.get(i).unwrap().is_main {
+                found = Some(rt.run_queue.get(i).unwrap());
             }
             i += 1;
         }
@@ -273,8 +273,8 @@ mod u8s {
     fn count_main_in_queue(rt: &Runtime) -> usize {
         let mut n = 0;
         let mut i = 0;
-        while i < rt.run_queue.0.len() {
-            if rt.run_queue.0[i].is_main {
+        while i < rt.run_queue.len() {
+            if rt.run_queue.get(i).unwrap().is_main {
                 n += 1;
             }
             i += 1;
@@ -284,8 +284,8 @@ mod u8s {
     fn any_queue_pending(rt: &Runtime) -> bool {
         let mut r = false;
         let mut i = 0;
-        while i < rt.run_queue.0.len() {
-            if rt.run_queue.0[i].pending_host_func.is_some() {
+        while i < rt.run_queue.len() {
+            if rt.run_queue.get(i).unwrap().pending_host_func.is_some() {
                 r = true;
             }
             i += 1;
@@ -295,8 +295,8 @@ mod u8s {
     fn any_queue_runnable(rt: &Runtime) -> bool {
         let mut r = false;
         let mut i = 0;
-        while i < rt.run_queue.0.len() {
-            let t = &rt.run_queue.0[i];
+        while i < rt.run_queue.len() {
+            let t = rt.run_queue.get(i).unwrap();
             if t.pending_host_func.is_none() && t.error.is_none() && !t.done && t.pending_ffi_call.is_none() {
                 r = true;
             }
@@ -307,8 +307,8 @@ mod u8s {
     fn any_nonmain_error(rt: &Runtime) -> bool {
         let mut r = false;
         let mut i = 0;
-        while i < rt.run_queue.0.len() {
-            let t = &rt.run_queue.0[i];
+        while i < rt.run_queue.len() {
+            let t = rt.run_queue.get(i).unwrap();
             if !t.is_main && t.error.is_some() {
                 r = true;
             }
@@ -329,12 +329,12 @@ mod u8s {
             }
         }
         let mut i = 0;
-        while i < rt.run_queue.0.len() {
-            let t = &rt.run_queue.0[i];
+        while i < rt.run_queue.len() {
+            let t = rt.run_queue.get(i).unwrap();
             ok = ok && !t.done && t.pending_ffi_call.is_none() && !(t.pending_host_func.is_some() && t.error.is_some());
             i += 1;
         }
-        ok && rt.new_threads.0.borrow().is_empty()
+        ok && rt.new_threads.in_flight() == 0
     }
 
     const BUDGET: u8 = 0;
@@ -424,8 +424,8 @@ mod u8s {
         }
         if c == INV || c == ALL {
             assert!(ri_holds(&s.rt), "RI is preserved by run_n_steps");
-            kani::cover!(s.rt.run_queue.0.len() > nq, "spawned thread queued");
-            kani::cover!(s.rt.run_queue.0.len() < nq, "finished thread removed");
+            kani::cover!(s.rt.run_queue.len() > nq, "spawned thread queued");
+            kani::cover!(s.rt.run_queue.len() < nq, "finished thread removed");
         }
         if c == NOPANIC {
             // oracle = Kani's own panic checks on validate() / main().unwrap() / top()
